@@ -559,7 +559,7 @@ mod tests {
             assert_eq!(decrypt_data(cipher, fk, 1, 0, &longer), None);
             // raw block whose padding byte is 0: invalid
             let key = if cipher == Cipher::AesV2 { object_key(fk, 1, 0, true) } else { fk.to_vec() };
-            let bad = [&iv[..], &crate::aes::aes_cbc_encrypt_nopad(&key, &iv, &[0u8; 16])].concat();
+            let bad = [&iv[..], &super::super::aes::aes_cbc_encrypt_nopad(&key, &iv, &[0u8; 16])].concat();
             assert_eq!(decrypt_data(cipher, fk, 1, 0, &bad), None);
         }
         assert_eq!(decrypt_data(Cipher::AesV3, &fk16, 1, 0, &[0u8; 32]), None);
